@@ -199,7 +199,7 @@ func writers(c *rt.Ctx) {
 		w.Begin(map[string]any{"cli-writers": i})
 		for k := 0; k < 6; k++ {
 			var op string
-			switch r.IntN(5) {
+			switch r.IntN(6) {
 			case 3:
 				op = "remove last file + migrate hash"
 				es, _ := os.ReadDir(mdir)
@@ -234,6 +234,12 @@ func writers(c *rt.Ctx) {
 					c.Violation("cli-writer|hash-failed", "atlas migrate hash failed: "+out, map[string]any{"history": hist}, nil)
 					return
 				}
+			case 5:
+				op = "migrate new --edit with a failing editor"
+				cmd := exec.Command(c.Atlas, "migrate", "new", fmt.Sprintf("e%d", k), "--edit", "--dir", "file://"+mdir)
+				cmd.Dir = root
+				cmd.Env = []string{"HOME=" + filepath.Join(root, "home"), "TMPDIR=" + filepath.Join(root, "tmp"), "ATLAS_NO_UPDATE_NOTIFIER=1", "ATLAS_NO_UPGRADE_SUGGESTIONS=1", "PATH=/usr/bin:/bin", "EDITOR=false"}
+				cmd.CombinedOutput()
 			case 0:
 				op = fmt.Sprintf("migrate new n%d", k)
 				if rc, out := run("migrate", "new", fmt.Sprintf("n%d", k), "--dir", "file://"+mdir); rc != 0 {
